@@ -124,6 +124,10 @@ func complete(input string) bool {
 		case "]":
 			bracketsOpen--
 		}
+		if blocksOpen < 0 || bracketsOpen < 0 {
+			// no further input can make up for a closer without an opener, whatever else is still open
+			return true
+		}
 	}
 
 	// a closer without an opener can never be completed by further input: let the parser report it
